@@ -52,6 +52,11 @@ def canonical_sites(c, yo, ylist, node):
     (site_keys(sites) with sites = [(source ordinal, source of the yielded expression, source of the enclosing
     statement, type of the enclosing except handler)] -> canonical ordinals), so that reordering the arms of an if/elif chain or of a try statement does
     not move a clause to another yield"""
+    if hasattr(c, 'site_keys_ast') and ylist:
+        ks = list(c.site_keys_ast(node, ylist))
+        if sorted(ks) != list(range(len(ylist))):
+            raise Unsupported('%s: its yield sites are not the ones the contract names (%s)' % (c.qual, ks))
+        return {id(y): k2 for y, k2 in zip(ylist, ks)}
     key = getattr(c, 'site_keys', None)
     if key is None or not ylist:
         return yo
@@ -91,6 +96,17 @@ def verify_function(c, variant=None, vname='', start=None, split_at=None):
         info0['unsupported'].append(str(u))
         return [], info0
     lo, llist = source.loop_ordinals(node)
+    if hasattr(c, 'loop_keys'):
+        # loops named by ROLE (what they iterate over and what they are nested in), not by their position in the source
+        try:
+            ks = list(c.loop_keys(node, llist))
+        except Unsupported as u:
+            info0['unsupported'].append(str(u))
+            return [], info0
+        if sorted(ks) != list(range(len(llist))):
+            info0['unsupported'].append('%s: its loops are not the ones the contract names (%s)' % (c.qual, ks))
+            return [], info0
+        lo = {id(l): k2 for l, k2 in zip(llist, ks)}
     info = dict(qual=c.qual, variant=vname, paths=0, feasible_paths=0, cut=0, unsupported=[],
                 yields=len(ylist), loops=len(llist), assumed=set(), callees=set())
 
